@@ -795,6 +795,44 @@ theorem tri_spline_flow_ldAntisym (dim : ℕ) (m : ℝ) (key : ℕ → TriSpline
   exact ⟨add_default_permute_lawful (triSpline_layer_lawful (hnet i hi)) (hperm i hi),
     add_default_permute_ldAntisym (triSpline_layer_lawful (hnet i hi)) (triSpline_layer_ldAntisym (hnet i hi)) (hperm i hi)⟩
 
+
+/-! ### the GENERATED `make_layer` / `get_splines` (g25): equal to the hand model, so the theorems above are about it -/
+
+/-- the hand model's per-layer key of the generated closure: the layer as constructed from `(lt_key, perm_key, cond_key)` -/
+noncomputable def genTriSplineKey (dim knots : ℕ) (cond_dim : Option ℕ) (key : ℕ → TriSplineKey ℝ) : ℕ → TriSplineNet ℝ × List ℕ :=
+  fun i => (triSplineInitNet dim knots cond_dim (key i), (key i).2.1)
+
+/-- **`gen_tri_spline_make_layer_eq`** — the closure `triangular_spline_flow.make_layer` REGENERATED from the source (with the
+nested `get_splines`) is the hand model `Flows.triSplineCore` of the layer as constructed, followed by the generated
+`_add_default_permute` with `perm_key`: every `dim`, every key (triangular weights, permutation, condition matrix),
+every `tanh_max_val`, every `knots`, conditional or not.  (Both sides unfold to the same term: the order of the four
+bijections, the `Invert`, `interval=1`, `.set(1)`, `replace_fn=WeightNormalization`, the conditional `append` and which key
+goes where are all read from the source on the left and written by hand on the right.) -/
+theorem gen_tri_spline_make_layer_eq (dim : ℕ) (m : ℝ) (knots : ℕ) (cond_dim : Option ℕ) (key : TriSplineKey ℝ) :
+    triangular_spline_flow.make_layer dim m knots cond_dim key =
+      triSplineLayer dim m (triSplineInitNet dim knots cond_dim key, key.2.1) := by
+  obtain ⟨lt, perm, ck⟩ := key
+  cases cond_dim <;> rfl
+
+/-- the generated `get_splines()` is the `Vmap` of `dim` copies of `RationalQuadraticSpline(knots=knots, interval=1)` -/
+theorem gen_tri_spline_get_splines_eq (dim knots : ℕ) :
+    (triangular_spline_flow.get_splines knots dim : VBij ℝ) =
+      Bij.elementwise ((List.replicate dim (rqsCtor knots (1 : ℝ))).map fun s => s.toBij) := rfl
+
+/-- the generated factory body over the generated closure = the factory body over the hand layer at the constructed keys -/
+theorem genTriSplineFlowBij_eq (dim : ℕ) (m : ℝ) (knots : ℕ) (cond_dim : Option ℕ) (key : ℕ → TriSplineKey ℝ) (n : ℕ)
+    (invert : Bool) :
+    genTriSplineFlowBij dim m knots cond_dim key n invert =
+      triSplineFlowBij dim m (genTriSplineKey dim knots cond_dim key) n invert := by
+  have h : filterVmap (triangular_spline_flow.make_layer dim m knots cond_dim) (jrSplitN key n) =
+      filterVmap (triSplineLayer dim m) (jrSplitN (genTriSplineKey dim knots cond_dim key) n) := by
+    simp only [filterVmap, jrSplitN, List.map_map]
+    refine List.map_congr_left fun i _ => ?_
+    exact gen_tri_spline_make_layer_eq dim m knots cond_dim (key i)
+  show (if invert then invertOf (scanOf (filterVmap (triangular_spline_flow.make_layer dim m knots cond_dim) (jrSplitN key n)))
+       else scanOf (filterVmap (triangular_spline_flow.make_layer dim m knots cond_dim) (jrSplitN key n))) = _
+  rw [h]; rfl
+
 end trispline
 
 /-! ## concrete objects for the non-vacuity instances -/
